@@ -249,7 +249,7 @@ void vfps::KickMap::apply()
                 for (meshindex_t y=0; y< static_cast<meshindex_t>(_meshsize_kd); y++) {
                     meshdata_t value = 0;
                     for (std::remove_const<decltype(_ip)>::type j=0; j<_ip; j++) {
-                        hi h = _hinfo[offs2+x*_ip+j];
+                        hi h = _hinfo[(offs2+x)*_ip+j];
                         // the min makes sure not to have out of bounds accesses
                         // casting is to be sure about overflow behaviour
                         const meshindex_t ys = static_cast<meshindex_t>(
